@@ -26,6 +26,46 @@ EXPLANATION = (
     "or the integer programme of to_preferred.")
 
 
+
+def to_compact_rule(ck, ix):
+    """to_compact: unchanged for unitless/zero/NaN/inf, prefix chosen from the magnitude in the unprefixed unit (nominal
+    value for uncertain magnitudes), only one unit renamed with the prefix."""
+    f = ix.func(QTO, "to_compact")
+    cfg, defs = cfg_of(f), defs_of(f)
+    conv = nodes_with(cfg, lambda x: isinstance(x, ast.Call) and call_name(x) == "to" and norm(x.func.value) == "quantity")
+    guards = [n.id for n in cfg.nodes if n.kind == "test" and "quantity.unitless" in norm(n.ast)]
+    ck.check(bool(guards), "G-DOM", "to_compact|unchanged-guard-present", f.loc(), "unitless/zero/NaN/inf guard present", "the unitless/zero/NaN/inf guard of to_compact is gone")
+    for g in guards:
+        s = norm(cfg.nodes[g].ast)
+        for part in ("quantity.unitless", "qm == 0", "math.isnan(qm)", "math.isinf(qm)"):
+            ck.check(part in s, "G-DOM", f"to_compact|unchanged-for|{part}", f.loc(cfg.nodes[g].ast), f"`{part}` returns the input unchanged", f"to_compact no longer returns its input unchanged when `{part}`")
+        succ = [v for (v, lab) in cfg.succ[g] if lab == "t"]
+        ck.check(all(isinstance(cfg.nodes[v].ast, ast.Return) and norm(cfg.nodes[v].ast.value) == "quantity" for v in succ), "G-DOM", "to_compact|guard-returns-input", f.loc(cfg.nodes[g].ast), "guard returns the input object", "the guard does not return the input unchanged")
+    for c in live(cfg, conv):
+        p = undominated(cfg, [c], guards)
+        ck.check(p is None, "G-DOM", "to_compact|conversion-after-guards", f.loc(cfg.nodes[c].ast), "conversions happen only after the guards", "a conversion happens before the unitless/zero/NaN/inf guard", witness(cfg, p))
+    # magnitude used for the prefix derives from the converted quantity
+    pw = [a for a in walk_local(f.node) if isinstance(a, ast.Assign) and norm(a.targets[0]) == "power"]
+    ck.check(len(pw) == 2, "G-PROV", "to_compact|two-power-formulas", f.loc(), "floor/ceil formulas present", f"{len(pw)} assignments of `power` found (expected floor and ceil branch)")
+    for a in pw:
+        roots = defs.roots(a.value)
+        ok = any(r.startswith("q_base") for r in roots) and not any(r in ("qm", "quantity.magnitude") or r.startswith("quantity.magnitude") for r in roots)
+        ck.check(ok, "G-PROV", f"to_compact|prefix-from-converted-magnitude|{norm(a.value)[:20]}", f.loc(a), "the prefix is chosen from the magnitude in the unprefixed unit",
+                 f"`{norm(a)[:80]}`: the magnitude used to choose the prefix derives from {sorted(r for r in roots if 'magnitude' in r or r == 'qm')}, not from the quantity converted to the unprefixed unit (already-prefixed inputs get the wrong prefix)")
+        ck.check("/ float(unit_power) / 3) * 3" in norm(a.value), "G-PROV", f"to_compact|steps-of-three|{norm(a.value)[:20]}", f.loc(a), "log10(|m|) / exponent, in steps of 3", f"`{norm(a.value)}` is not floor/ceil(log10(|m|)/exponent/3)*3")
+    tests = [t for t in walk_local(f.node) if isinstance(t, ast.If) and norm(t.test) == "unit_power > 0"]
+    ok = bool(tests) and "math.floor" in norm(tests[0].body[0]) and "math.ceil" in norm(tests[0].orelse[0])
+    ck.check(ok, "G-PROV", "to_compact|floor-for-positive-ceil-for-negative", f.loc(), "floor for positive exponents, ceil for negative", "the floor/ceil choice by the sign of the exponent changed")
+    ren = [c for c in walk_local(f.node) if isinstance(c, ast.Call) and call_name(c) == "rename"]
+    newname = ren[0].args[1] if ren else None
+    if isinstance(newname, ast.Name):
+        newname = defs.single(newname.id) or newname
+    ok = len(ren) == 1 and norm(ren[0].func.value) == "q_base._units" and norm(ren[0].args[0]) == "unit_str" and isinstance(newname, ast.BinOp) and isinstance(newname.op, ast.Add) and norm(newname.right) == "unit_str"
+    ck.check(ok, "G-PROV", "to_compact|only-one-unit-renamed-with-prefix", f.loc(), "units change only by prefixing one entry", "to_compact no longer changes the units only by renaming one entry to prefix + unit")
+    ck.check("index = bisect.bisect_left(SI_powers, power)" in norm(f.node) and "if index >= len(SI_bases)" in norm(f.node), "G-PROV", "to_compact|prefix-lookup", f.loc(), "prefix looked up by bisect, clamped", "the prefix lookup by bisect/clamp changed")
+    ck.check("q_base = quantity.to(unit)" in norm(f.node) and "infer_base_unit(quantity, registry=quantity._REGISTRY)" in norm(f.node), "G-PROV", "to_compact|unprefixed-base", f.loc(), "converted to the unprefixed unit first", "to_compact no longer converts to the unprefixed unit first")
+
+
 def run(ck, ix, tier):
     ck.rule("G-TWIN", "functional and in-place helper have the same branches with to <-> ito")
     # ------------------------------------------------------------ exits of the functional helpers
@@ -98,41 +138,7 @@ def run(ck, ix, tier):
         if isinstance(c, ast.Call) and call_name(c).startswith("ito") and norm(c.func.value) != "result":
             ck.fail("G-OWN", f"ireduce_dimensions|rewrites-operand|{norm(c)[:40]}", f.loc(c), f"`{norm(c)}` rewrites an operand of the operation in place")
 
-    # ------------------------------------------------------------ to_compact
-    f = ix.func(QTO, "to_compact")
-    cfg, defs = cfg_of(f), defs_of(f)
-    conv = nodes_with(cfg, lambda x: isinstance(x, ast.Call) and call_name(x) == "to" and norm(x.func.value) == "quantity")
-    guards = [n.id for n in cfg.nodes if n.kind == "test" and "quantity.unitless" in norm(n.ast)]
-    ck.check(bool(guards), "G-DOM", "to_compact|unchanged-guard-present", f.loc(), "unitless/zero/NaN/inf guard present", "the unitless/zero/NaN/inf guard of to_compact is gone")
-    for g in guards:
-        s = norm(cfg.nodes[g].ast)
-        for part in ("quantity.unitless", "qm == 0", "math.isnan(qm)", "math.isinf(qm)"):
-            ck.check(part in s, "G-DOM", f"to_compact|unchanged-for|{part}", f.loc(cfg.nodes[g].ast), f"`{part}` returns the input unchanged", f"to_compact no longer returns its input unchanged when `{part}`")
-        succ = [v for (v, lab) in cfg.succ[g] if lab == "t"]
-        ck.check(all(isinstance(cfg.nodes[v].ast, ast.Return) and norm(cfg.nodes[v].ast.value) == "quantity" for v in succ), "G-DOM", "to_compact|guard-returns-input", f.loc(cfg.nodes[g].ast), "guard returns the input object", "the guard does not return the input unchanged")
-    for c in live(cfg, conv):
-        p = undominated(cfg, [c], guards)
-        ck.check(p is None, "G-DOM", "to_compact|conversion-after-guards", f.loc(cfg.nodes[c].ast), "conversions happen only after the guards", "a conversion happens before the unitless/zero/NaN/inf guard", witness(cfg, p))
-    # magnitude used for the prefix derives from the converted quantity
-    pw = [a for a in walk_local(f.node) if isinstance(a, ast.Assign) and norm(a.targets[0]) == "power"]
-    ck.check(len(pw) == 2, "G-PROV", "to_compact|two-power-formulas", f.loc(), "floor/ceil formulas present", f"{len(pw)} assignments of `power` found (expected floor and ceil branch)")
-    for a in pw:
-        roots = defs.roots(a.value)
-        ok = any(r.startswith("q_base") for r in roots) and not any(r in ("qm", "quantity.magnitude") or r.startswith("quantity.magnitude") for r in roots)
-        ck.check(ok, "G-PROV", f"to_compact|prefix-from-converted-magnitude|{norm(a.value)[:20]}", f.loc(a), "the prefix is chosen from the magnitude in the unprefixed unit",
-                 f"`{norm(a)[:80]}`: the magnitude used to choose the prefix derives from {sorted(r for r in roots if 'magnitude' in r or r == 'qm')}, not from the quantity converted to the unprefixed unit (already-prefixed inputs get the wrong prefix)")
-        ck.check("/ float(unit_power) / 3) * 3" in norm(a.value), "G-PROV", f"to_compact|steps-of-three|{norm(a.value)[:20]}", f.loc(a), "log10(|m|) / exponent, in steps of 3", f"`{norm(a.value)}` is not floor/ceil(log10(|m|)/exponent/3)*3")
-    tests = [t for t in walk_local(f.node) if isinstance(t, ast.If) and norm(t.test) == "unit_power > 0"]
-    ok = bool(tests) and "math.floor" in norm(tests[0].body[0]) and "math.ceil" in norm(tests[0].orelse[0])
-    ck.check(ok, "G-PROV", "to_compact|floor-for-positive-ceil-for-negative", f.loc(), "floor for positive exponents, ceil for negative", "the floor/ceil choice by the sign of the exponent changed")
-    ren = [c for c in walk_local(f.node) if isinstance(c, ast.Call) and call_name(c) == "rename"]
-    newname = ren[0].args[1] if ren else None
-    if isinstance(newname, ast.Name):
-        newname = defs.single(newname.id) or newname
-    ok = len(ren) == 1 and norm(ren[0].func.value) == "q_base._units" and norm(ren[0].args[0]) == "unit_str" and isinstance(newname, ast.BinOp) and isinstance(newname.op, ast.Add) and norm(newname.right) == "unit_str"
-    ck.check(ok, "G-PROV", "to_compact|only-one-unit-renamed-with-prefix", f.loc(), "units change only by prefixing one entry", "to_compact no longer changes the units only by renaming one entry to prefix + unit")
-    ck.check("index = bisect.bisect_left(SI_powers, power)" in norm(f.node) and "if index >= len(SI_bases)" in norm(f.node), "G-PROV", "to_compact|prefix-lookup", f.loc(), "prefix looked up by bisect, clamped", "the prefix lookup by bisect/clamp changed")
-    ck.check("q_base = quantity.to(unit)" in norm(f.node) and "infer_base_unit(quantity, registry=quantity._REGISTRY)" in norm(f.node), "G-PROV", "to_compact|unprefixed-base", f.loc(), "converted to the unprefixed unit first", "to_compact no longer converts to the unprefixed unit first")
+    to_compact_rule(ck, ix)
 
     # ------------------------------------------------------------ _get_reduced_units
     f = ix.func(QTO, "_get_reduced_units")
